@@ -228,6 +228,19 @@ CLAIMED = {
         "note": "numerical kernels replaced by shape-correct stubs (failures inside real numerics are outside); fit_circuit and calculate_drt "
                 "drivers are not covered; option products are enumerated by solver-driven choices (bounded exhaustive), only the lemma is fully symbolic",
     },
+    "C19": {
+        "category": "other",
+        "text": "The pure-Python glue of the command-line interface run under the symbolic executor. Mock-data specifiers '<ID:key=value,...>': the "
+                "characters of the identifier (bracket-free text, or braces holding arbitrary characters incl. colons) and of the value numerals are z3 "
+                "variables; the real _parse_identity / get_mock_data / get_mock_circuits / parse_inputs must hand generate_mock_data exactly the identifier "
+                "and the float/int keyword arguments written in the specifier, and refuse a non-numeral value (ValueError) or an undocumented keyword "
+                "(KeyError). 'parse': the real cli.parse.command + apply_filters on symbolic spectra with symbolic low-/high-pass cut-offs and every set of "
+                "excluded indices: the table handed to the formatter holds exactly the points the API sequence low_pass/high_pass/set_mask leaves "
+                "unmasked, with the API's numbers; an empty selection is refused.",
+        "design_ref": "DESIGN.md section 4, C19",
+        "note": "PARTIAL: text formatting (pandas), argparse, files, matplotlib and the commands circuit --simulate / fit / drt / test / zhit are outside; "
+                "numerals are uninterpreted numbers whose syntax is decided exactly on the symbolic characters",
+    },
     "C20": {
         "category": "other",
         "text": "Circuit shapes (every series/parallel nest of <=3 (4) leaves within depth 2 (3), direct construction incl. single-item connections, "
@@ -243,8 +256,6 @@ CLAIMED = {
 }
 
 NOT_APPLICABLE = {
-    "C19": "the CLI layer is argparse, str.split/float() text handling (C level), pandas formatting and file output around direct calls of the API; "
-           "a check of it would be concrete enumeration of command lines, not a solver-based decision (the API results it prints are covered by C05/C08/C12)",
     "C10": "statistical statement about an optimisation pipeline on random data (noise estimate 'of the order of' the injected one over seeds); curve_fit/lmfit/RNG have no encoding within reach and an acceptance band is not an SMT assertion",
 }
 
